@@ -513,11 +513,78 @@ def apply_fault_sequence(rng, ctx, enabled, max_faults):
     return img, fired
 
 
+# ------------------------------------------------------- a producer for the dropbox format
+# (the XXTEA variant of xdis/dropbox/decrypt25.py, re-implemented here so that the workload does not depend on
+# the tree under test: the key is derived from two ints stored in the clear)
+_DELTA = 0x9E3779B9
+
+
+def _db_rng(a, b):
+    b = ((b << 13) ^ b) & 0xFFFFFFFF
+    c = b ^ (b >> 17)
+    c = c ^ (c << 5)
+    return (a * 69069 + c + 0x6611CB3B) & 0xFFFFFFFF
+
+
+def _db_keys(a, b):
+    ka = _db_rng(a, b)
+    kb = _db_rng(ka, a)
+    kc = _db_rng(kb, ka)
+    kd = _db_rng(kc, kb)
+    ke = _db_rng(kd, kc)
+    return (kb, kc, kd, ke)
+
+
+def _db_mx(z, y, s, key, p, e):
+    return ((z >> 5 ^ y << 2) + (y >> 3 ^ z << 4)) ^ ((s ^ y) + (key[(p & 3) ^ e] ^ z))
+
+
+def dropbox_encrypt_code(plain, a):
+    """'c' record of the dropbox format for the Python 2.5 code-object fields in `plain` (no type byte)"""
+    b = len(plain)
+    pad = (b + 15) & ~0xF
+    plain = plain + b"\0" * (pad - b)
+    key = _db_keys(a & 0xFFFFFFFF, b)
+    v = list(struct.unpack("<%dL" % (pad // 4), plain))
+    n = len(v)
+    s = 0
+    for _ in range(6 + 52 // n):
+        s = (s + _DELTA) & 0xFFFFFFFF
+        e = (s >> 2) & 3
+        for p in range(n):
+            z, y = v[(p - 1) % n], v[(p + 1) % n]
+            v[p] = (v[p] + _db_mx(z, y, s, key, p, e)) & 0xFFFFFFFF
+    return b"c" + struct.pack("<i", a) + struct.pack("<i", b) + struct.pack("<%dL" % (pad // 4), *v)
+
+
+def synth_dropbox_valid(rng):
+    """a well-formed encrypted dropbox module: code strings of varied length and opcode mix (opcodes the
+    loader's substitution table knows, does not know, with and without arguments)"""
+    def S(b):
+        return b"s" + struct.pack("<i", len(b)) + b
+
+    ln = rng.choice([8, 60, 600, 6000, 30000, 60000])
+    mix = rng.choice(["unknown", "known", "mixed"])
+    if mix == "unknown":
+        code = bytes([rng.choice([5, 20, 25, 27, 30, 48, 49, 53, 57])]) * ln
+    elif mix == "known":
+        code = bytes([rng.choice([0, 1, 2, 4, 9, 13, 15])]) * ln
+    else:
+        code = rng.bytes(ln)
+    empty = b"(" + struct.pack("<i", 0)
+    plain = struct.pack("<iiii", 0, 0, 1, 64) + S(code) + empty * 5 + S(b"f.py") + S(b"m") + struct.pack("<i", 1) + S(b"")
+    data = struct.pack("<H", 62135) + b"\r\n" + struct.pack("<i", 0) + dropbox_encrypt_code(plain, rng.bits(31))
+    return data[: 64 * 1024], {"kind": "not_bytecode", "what": "dropbox_valid", "magic": 62135, "len": len(data),
+                              "code_len": ln, "opcode_mix": mix}
+
+
 # ---------------------------------------------------------------- not bytecode at all
 def synth_not_bytecode(rng, magics):
     """An input that never was a .pyc. Returns (bytes, descriptor)."""
     kind = rng.choice(["empty", "short", "text", "elf", "zip", "gzip", "random", "magic+random", "magic+zeros",
                        "magic+pattern", "source", "magic+marshalish", "dropbox_like"])
+    if kind == "dropbox_like" and rng.chance(1, 3):
+        return synth_dropbox_valid(rng)
     if kind == "dropbox_like":
         # the encrypted-code layout of the dropbox loader: 'c', two key words (the second is also the byte count),
         # then the (here: random) cipher text; sizes 0, 1, odd, huge and negative
